@@ -142,6 +142,24 @@ def apply_mutations(muts, rule, args, prev_ths, state, pos):
     return args, prev_ths, kinds
 
 
+GEN_MACROS = ['nat_norm', 'nat_const_ineq', 'nat_const_less_eq', 'nat_const_less']
+
+
+def run_gen_case(case, H):
+    """Generated goals for the natural-number macros (also at foreign numeric types)."""
+    from kernel import theory
+    from vlib import codec, libsig
+    sig = libsig.sig_for('real')
+    theory.thy = sig['theory']
+    rule = case.get('macro')
+    if rule not in GEN_MACROS or not theory.has_macro(rule):
+        raise CaseInvalid('macro')
+    goal = codec.term_dec(case['goal'])
+    if not ref.well_typed(ref.from_jterm(case['goal']), ref.BOOL):
+        raise CaseInvalid('goal ill-typed')
+    compare(case, rule, theory.get_macro(rule), goal, [], ['generated:' + case.get('klass', '?')], H)
+
+
 def run_case(case, H):
     from kernel import theory
     from kernel.proof import Proof, ProofItem, ItemID
@@ -150,6 +168,8 @@ def run_case(case, H):
     from kernel.macro import Macro
     if not isinstance(case, dict):
         raise CaseInvalid('case')
+    if case.get('kind') == 'gen':
+        return run_gen_case(case, H)
     try:
         with time_limit(90):
             item, state = final_state(case['theory'], case['thm'])
@@ -186,6 +206,14 @@ def run_triple(case, state, pos, it, H):
     args, prev_ths, kinds = apply_mutations(case.get('mut') or [], rule, it.args, prev_ths, state, pos)
     sub = dict(case, item=None)
     sub['at'] = edit_lib.id_str(pos)
+    compare(sub, rule, macro, args, prev_ths, kinds, H)
+
+
+def compare(sub, rule, macro, args, prev_ths, kinds, H):
+    from kernel import theory
+    from kernel.proof import Proof, ProofItem, ItemID
+    from kernel.report import ProofReport
+    from kernel.macro import Macro
     mutated = bool(kinds)
     overrides_eval = type(macro).eval is not Macro.eval
     klass = ['macro:' + rule, 'mutated' if mutated else 'harvested']
@@ -281,12 +309,70 @@ def case_strategy(corpus):
         lambda p: {'theory': p[0][0], 'thm': p[0][1], 'item': p[1], 'mut': p[2]})
 
 
+def gen_strategy():
+    from hypothesis import strategies as st
+    from vlib import codec, libsig
+    from vlib.codec import fun, BOOL
+    NAT, INT, REAL = ["tc", "nat"], ["tc", "int"], ["tc", "real"]
+
+    def binop(name, T, a, b, res=None):
+        return ["app", ["app", ["c", name, fun(T, T, res or T)], a], b]
+
+    @st.composite
+    def poly(draw, T, depth):
+        if depth <= 0 or draw(st.integers(0, 3)) == 0:
+            if draw(st.booleans()):
+                return ["v", draw(st.sampled_from(['x', 'y', 'z'])), T]
+            return libsig.numeral(T, draw(st.integers(0, 5)))
+        op = draw(st.sampled_from(['plus', 'plus', 'times', 'times', 'Suc']))
+        if op == 'Suc' and T == NAT:
+            return ["app", ["c", "Suc", fun(NAT, NAT)], draw(poly(T, depth - 1))]
+        if op == 'Suc':
+            op = 'plus'
+        return binop(op, T, draw(poly(T, depth - 1)), draw(poly(T, depth - 1)))
+
+    def shuffle(draw, t):
+        # one AC / distribution-free rearrangement: swap arguments of + and * recursively
+        if t[0] == 'app' and t[1][0] == 'app' and t[1][1][0] == 'c' and t[1][1][1] in ('plus', 'times'):
+            a, b = shuffle(draw, t[1][2]), shuffle(draw, t[2])
+            if draw(st.booleans()):
+                a, b = b, a
+            return ["app", ["app", t[1][1], a], b]
+        return t
+
+    @st.composite
+    def cases(draw):
+        macro = draw(st.sampled_from(GEN_MACROS))
+        T = draw(st.sampled_from([NAT, NAT, NAT, INT, REAL]))
+        klass = 'nat' if T == NAT else 'foreign-type'
+        if macro == 'nat_norm':
+            a = draw(poly(T, 3))
+            b = shuffle(draw, a)
+            if draw(st.integers(0, 3)) == 0:
+                b = binop('plus', T, b, libsig.numeral(T, 1))
+                klass += ':near-miss'
+            goal = binop('equals', T, a, b, BOOL)
+        else:
+            m, n = draw(st.integers(0, 40)), draw(st.integers(0, 40))
+            a, b = libsig.numeral(T, m), libsig.numeral(T, n)
+            if macro == 'nat_const_ineq':
+                goal = ["app", ["c", "neg", fun(BOOL, BOOL)], binop('equals', T, a, b, BOOL)]
+            elif macro == 'nat_const_less_eq':
+                goal = binop('less_eq', T, a, b, BOOL)
+            else:
+                goal = binop('less', T, a, b, BOOL)
+        return {'kind': 'gen', 'macro': macro, 'goal': goal, 'klass': klass}
+    return cases()
+
+
 def shards(tier):
     if tier == 'quick':
         return [{'kind': 'harvest', 'part': i, 'parts': 16, 'stride': 4} for i in range(16)] + \
-               [{'kind': 'mut', 'n': c, 'i': i} for i, c in enumerate(harness.split(900, 16))]
+               [{'kind': 'mut', 'n': c, 'i': i} for i, c in enumerate(harness.split(900, 16))] + \
+               [{'kind': 'gen', 'n': c, 'i': i} for i, c in enumerate(harness.split(1200, 4))]
     return [{'kind': 'harvest', 'part': i, 'parts': 48, 'stride': 1} for i in range(48)] + \
-           [{'kind': 'mut', 'n': c, 'i': i} for i, c in enumerate(harness.split(40000, 48))]
+           [{'kind': 'mut', 'n': c, 'i': i} for i, c in enumerate(harness.split(40000, 48))] + \
+           [{'kind': 'gen', 'n': c, 'i': i} for i, c in enumerate(harness.split(40000, 16))]
 
 
 def run_shard(desc, seed, tier, H):
@@ -308,4 +394,4 @@ def run_shard(desc, seed, tier, H):
             run_case(case, H)
         except CaseInvalid:
             H.note('case-invalid')
-    harness.hyp_run(case_strategy(corpus), body, desc['n'], seed)
+    harness.hyp_run(gen_strategy() if desc['kind'] == 'gen' else case_strategy(corpus), body, desc['n'], seed)
